@@ -178,7 +178,9 @@ impl FromMeta for DataShape {
             if let NestedMeta::Meta(Meta::Path(ref path)) = *item {
                 // A shape word is a single identifier: `unit::x` is not `unit`.
                 errors.handle(match path.get_ident() {
-                    Some(ident) => new.set_word(&ident.to_string()),
+                    Some(ident) => new
+                        .set_word(&ident.to_string())
+                        .map_err(|e| e.with_span(ident)),
                     None => Err(
                         Error::unknown_value(&crate::util::path_to_string(path)).with_span(path)
                     ),
